@@ -258,7 +258,12 @@ func forType(t reflect.Type, seen map[reflect.Type]bool, ignore bool, schemas ma
 				s.Properties = make(map[string]*Schema)
 			}
 			if field.Anonymous {
-				override := schemas[field.Type]
+				// An embedded pointer to a struct promotes the same fields.
+				embedded := field.Type
+				if embedded.Kind() == reflect.Pointer {
+					embedded = embedded.Elem()
+				}
+				override := schemas[embedded]
 				if override != nil {
 					// Type must be object, and only properties can be set.
 					if override.Type != "object" {
